@@ -19,15 +19,14 @@ oracle(seed, scale)        the property laws on the implementation alone.  Defec
                            (each has a `_counterexample` theorem in Pog/Props/C14.lean, C16.lean or C03.lean):
     union-firstmatch-lossy            C14  an earlier dataclass member accepts the payload and drops its extra keys
     union-prim-coercion               C14  Union[str, int]: 5 ↦ "5" (members are tried by CALLING them)
-    leaf-uuid-unsupported             C03  no structure/unstructure hook for uuid.UUID
-    leaf-time-unsupported             C03  … nor for datetime.time
     error-path-lost-through-optional  C16  below an Optional/union field the inner field path is not reported
     serializer-cycle-recursion        C16  a cycle cattrs walks itself (resolved annotation, Any, dict): RecursionError
                                            or a copy unrolled to the recursion limit
     serializer-dict-leaks-instance    C16  serialize({"k": node}) leaves forward-referenced children as live instances
     serializer-registry-dependent     C16  keys of an instance held by a dict: python names before / wire names after its
                                            class was registered
-  Classes that would be NEW findings: roundtrip-lossy, roundtrip-decode-fails, roundtrip-encode-fails,
+  Classes that would be NEW findings: leaf-uuid-unsupported, leaf-time-unsupported (F10, repaired: a conforming document with
+  a uuid.UUID / datetime.time value does not decode, or such a value is not written as a string), roundtrip-lossy, roundtrip-decode-fails, roundtrip-encode-fails,
   encode-decode-mismatch, encode-decode-fails, error-path-wrong, error-not-reported, error-not-valueerror,
   union-decode-fails, union-disc-wrong-variant, union-disc-unmapped-guessed, union-disc-retried, serializer-null-key,
   serializer-not-json, serializer-raises.
@@ -72,12 +71,16 @@ DT_CANON = ["2020-01-01T00:00:00", "1999-02-28T12:30:00+05:30", "2024-02-29T00:0
 DT_BAD = ["", "x", "2020-13-01T00:00:00", "2021-02-29T00:00:00", "2020-01-01T25:00:00", "2020-01-01T00:00:00ZZ", "yesterday"]
 DATE_OK = ["2020-01-01", "2024-02-29", "1999-12-31", "0001-01-01"]
 DATE_BAD = ["", "x", "2020-13-01", "2021-02-29", "2020-1-1", "2020-01-01T00:00:00", "01/02/2020"]
-UUIDS = ["123e4567-e89b-12d3-a456-426614174000", "00000000-0000-0000-0000-000000000005"]
-TIMES = ["12:00:00", "23:59:59"]
+UUIDS = ["123e4567-e89b-12d3-a456-426614174000", "00000000-0000-0000-0000-000000000005", "ffffffff-ffff-4fff-bfff-fffffffffffe"]
+UUID_BAD = ["", "x", "123e4567-e89b-12d3-a456-42661417400", "123e4567-e89b-12d3-a456-4266141740000", "123e4567-e89b-12d3-a456-42661417400g",
+            "not-a-uuid"]
+TIMES = ["12:00:00", "23:59:59", "08:30:00+05:30", "00:00:00-08:00", "12:00:00Z"]
+TIME_CANON = ["12:00:00", "23:59:59", "08:30:00+05:30", "00:00:00-08:00"]
+TIME_BAD = ["", "x", "25:00:00", "12:60:00", "12:00:61", "12:00:00ZZ", "noon", "12-00-00"]
 DISC_VALUES = ["one", "two", "three", "cat", "dog", "", "A"]
 
-LEAVES = ["str", "int", "float", "bool", "bytes", "datetime", "date"]
-BAD_LEAVES = ["uuid", "time"]
+LEAVES = ["str", "int", "float", "bool", "bytes", "datetime", "date", "time", "uuid"]
+BAD_LEAVES = ["uuid", "time"]          # the leaves of F10 (repaired): drawn more often by the `bad_leaf` feature and by the oracle
 
 
 # ------------------------------------------------------------------------------------------------ impl access
@@ -172,9 +175,9 @@ def render_val(x):
     if isinstance(x, _dt.date):
         return {"date": x.isoformat()}
     if isinstance(x, uuid.UUID):
-        return {"opaque": "uuid", "v": str(x)}
+        return {"uuid": str(x)}
     if isinstance(x, _dt.time):
-        return {"opaque": "time", "v": x.isoformat()}
+        return {"time": x.isoformat()}
     if isinstance(x, list):
         return [render_val(v) for v in x]
     if isinstance(x, dict):
@@ -193,7 +196,8 @@ _KIND_PATTERNS = [
     (re.compile(r"^Cannot structure \w+ into "), lambda m: "unionCannot"),
     (re.compile(r"^Unsupported type: "), lambda m: "unsupported"),
     (re.compile(r"^unhashable type: "), lambda m: "unhashable"),
-    (re.compile(r"^Cannot convert <class '[\w.]+'> to (datetime|date)$"), lambda m: "notTemporal"),
+    (re.compile(r"^Cannot convert <class '[\w.]+'> to (datetime|date|time|UUID)$"), lambda m: "notTemporal"),
+    (re.compile(r"^(badly formed hexadecimal UUID string|invalid literal for int\(\) with base 16: )"), lambda m: "uuidForm"),
     (re.compile(r"^(string indices must be integers|list indices must be integers|'\w+' object is not subscriptable)"),
      lambda m: "badIndex"),
     (re.compile(r"^argument of type '\w+' is not (iterable|a container or iterable)"), lambda m: "notContainer"),
@@ -563,7 +567,7 @@ class Case:
             if t == "uuid":
                 return rng.choice(UUIDS)
             if t == "time":
-                return rng.choice(TIMES)
+                return rng.choice(TIME_CANON if self.canonical else TIMES)
             if t == "any":
                 return self.gen_any_json()
             if t == "none":
@@ -636,7 +640,7 @@ class Case:
             out[i] = self.mutate(j[i], depth + 1) if rng.random() < 0.6 else self.gen_any_json()
             return out
         if isinstance(j, str) and r < 0.5:
-            return rng.choice(B64_BAD + DT_BAD + DATE_BAD + STRS)
+            return rng.choice(B64_BAD + DT_BAD + DATE_BAD + UUID_BAD + TIME_BAD + STRS)
         return self.gen_any_json()
 
 
@@ -736,8 +740,8 @@ def strip_reg(r, names):
 FEATURE_SETS = [
     ("plain", {"unions": False, "disc": False, "bad_leaf": 0.0, "meta_modes": ["none", "bij", "bij", "partial"]}),
     ("unions", {"unions": True, "disc": True, "bad_leaf": 0.0}),
-    # (no duplicate wire keys together with uuid/time leaves: the model reports `notJson` as soon as a non-JSON object
-    #  enters the result, the real dict display could still overwrite that entry under a duplicated key)
+    # (no duplicate wire keys here: the model reports `notJson` as soon as a non-JSON object enters the result, the real dict
+    #  display could still overwrite that entry under a duplicated key)
     ("everything", {"unions": True, "disc": True, "bad_leaf": 0.08,
                     "meta_modes": ["none", "bij", "bij", "bij", "partial", "loadonly", "dumponly", "inconsistent"]}),
     ("weirdmeta", {"unions": False, "disc": False, "bad_leaf": 0.0,
@@ -781,10 +785,10 @@ def hand_cases():
         ([V2], {"union": [{"dc": "V2"}, {"dict": "any"}], "disc": None}, [{"a": 1}, [1], {"a": 1, "b": 2}]),
         ([], {"union": ["int", {"dict": "any"}], "disc": None}, [{"a": 1}, "5", "x"]),
         ([V2], {"union": [{"dc": "V2"}, {"dict": "int"}], "disc": None}, [{"a": "1"}]),
-        ([U], {"dc": "U"}, [{"u": UUIDS[0]}, {}]),
-        ([], "uuid", [UUIDS[0]]),
-        ([], "time", [TIMES[0]]),
-        ([T], {"dc": "T"}, [{}, {"t": None}, {"t": TIMES[0]}]),
+        ([U], {"dc": "U"}, [{"u": UUIDS[0]}, {}, {"u": "zz"}, {"u": 5}, {"u": None}]),
+        ([], "uuid", [5, None, True, [1], {"a": 1}] + UUIDS + UUID_BAD),
+        ([], "time", [5, None, True, [1], {"a": 1}] + TIMES + TIME_BAD + DT_OK[:2] + DATE_OK[:1]),
+        ([T], {"dc": "T"}, [{}, {"t": None}, {"t": TIMES[0]}, {"t": "x"}, {"t": 5}]),
         ([H, C], {"dc": "C"}, [{"A": 1, "b": "x", "extra": 1}, {}, {"a": 1}, {"A": "x", "c": [1, "y", "z"]},
                                {"A": 1, "d": {"z": "q"}}, {"A": 1, "d": {}}, {"A": 1, "f": {"k": {"z": "q"}, "k2": {}}},
                                {"A": 1, "g": [{"z": 1}, {"z": "q"}, 5]}, {"A": 1, "h": None}, {"A": 1, "c": None},
@@ -805,8 +809,11 @@ def hand_cases():
         ([], "none", [None, 5]),
         ([], {"enum": "E", "members": ["a", "b"]}, ["a", 1, True, "1", None, [1], {"a": 1}]),
         ([], {"enum": "F", "members": [1, 2]}, ["a", 1, True, "1", None, [1], 0, False]),
-        ([], {"list": "uuid"}, [[], [UUIDS[0]]]),
-        ([], {"opt": "uuid"}, [None, UUIDS[0]]),
+        ([], {"list": "uuid"}, [[], [UUIDS[0]], [UUIDS[1], "x", 5]]),
+        ([], {"opt": "uuid"}, [None, UUIDS[0], "x"]),
+        ([], {"dict": "time"}, [{}, {"a": TIMES[0], "b": TIMES[4]}, {"a": "x"}]),
+        ([], {"union": ["uuid", "int"], "disc": None}, [UUIDS[0], "7", "x", 5]),
+        ([], {"union": ["time", "date", "datetime"], "disc": None}, [TIMES[0], DATE_OK[0], DT_OK[0], "x"]),
         ([], {"dict": "any"}, [{"a": 1}, [1], None]),
         ([], {"opt": {"dict": "any"}}, [{"a": [None]}, [1], None]),
     ]
@@ -1126,16 +1133,16 @@ class HeapGen:
                 return {"date": rng.choice(DATE_OK)}, None
             if t == "uuid":
                 self.feats.add("uuid")
-                return {"opaque": "uuid", "v": rng.choice(UUIDS)}, None
+                return {"uuid": rng.choice(UUIDS)}, None
             if t == "time":
                 self.feats.add("time")
-                return {"opaque": "time", "v": rng.choice(TIMES)}, None
+                return {"time": _dt.time.fromisoformat(rng.choice(TIMES)).isoformat()}, None
             if t == "none":
                 return None, None
             if t == "any":
                 r = rng.random()
                 if r < 0.35 or depth > 5:
-                    return self.hval(rng.choice(["str", "int", "bool", "none", "bytes", "datetime"]), depth)
+                    return self.hval(rng.choice(["str", "int", "bool", "none", "bytes", "datetime", "uuid", "time"]), depth)
                 if r < 0.55 and self.live and rng.random() < self.p_reuse * 2:
                     i = rng.choice(list(self.live))
                     self.feats.add("any-reuse")
@@ -1217,10 +1224,10 @@ class HeapGen:
                 return _dt.date.fromisoformat(h["date"])
             if "enum" in h:
                 return self.c.enums[h["enum"]][0](h["v"])
-            if h["opaque"] == "uuid":
-                return uuid.UUID(h["v"])
-            if h["opaque"] == "time":
-                return _dt.time.fromisoformat(h["v"])
+            if "uuid" in h:
+                return uuid.UUID(h["uuid"])
+            if "time" in h:
+                return _dt.time.fromisoformat(h["time"])
             raise AssertionError(h)
         for i, desc in self.heap:
             o = self.live[i]
@@ -1321,7 +1328,8 @@ SER_HAND = [
                                                  [2, {"inst": "N", "f": [["name", "s"], ["nxt", None]]}]], {"ref": 0}),
     ("immediates", "dc", [], None), ("immediates", "dc", [], 5), ("immediates", "dc", [], "s"),
     ("immediates", "dc", [], {"bytes": "aGk="}), ("immediates", "dc", [], {"bytearray": "aGk="}),
-    ("immediates", "dc", [], {"dt": "2020-01-01T00:00:00"}), ("immediates", "dc", [], {"opaque": "uuid", "v": UUIDS[0]}),
+    ("immediates", "dc", [], {"dt": "2020-01-01T00:00:00"}), ("immediates", "dc", [], {"uuid": UUIDS[0]}),
+    ("immediates", "dc", [], {"time": TIMES[0]}), ("immediates", "dc", [], {"date": DATE_OK[0]}),
 ]
 
 
@@ -1383,12 +1391,12 @@ def heap_to_val(heap, h):
             if "dict" in d:
                 return {"dict": [[k, go(y)] for k, y in d["dict"]]}
             return {"inst": d["inst"], "f": [[n, go(y)] for n, y in d["f"]]}
-        return x                                   # bytes / dt / date / enum / opaque share the encoding
+        return x                                   # bytes / dt / date / time / uuid / enum / opaque share the encoding
     return go(h)
 
 
 def _unstructure_cases(rng, scale, cc, add, bump):
-    """`unstructure_to_dict` on directly constructed (tree-shaped) instances: opaque leaves, enums, unions and `Any`
+    """`unstructure_to_dict` on directly constructed (tree-shaped) instances: hooked leaves, enums, unions and `Any`
     positions holding dataclass instances (whose keys depend on the registry)."""
     for ui in range(max(4, int(round(160 * scale)))):
         feat = dict(FEATURE_SETS[rng.choice([0, 1, 2, 2])][1], depth=rng.choice([1, 2, 3]))
@@ -1854,7 +1862,7 @@ def oracle(seed: int = 16, scale: float = 1.0) -> dict:
             continue
         for _ in range(3):
             cases.append({"prop": "decode_encode", "decls": c.decls, "ty": ty, "json": c.gen_conf(ty)})
-    # 2. the same with uuid / time leaves somewhere
+    # 2. the same with uuid / time leaves somewhere (the inputs that used to trigger F10)
     for ci in range(max(2, int(round(40 * scale)))):
         leaf = rng.choice(BAD_LEAVES)
         c = Case(rng, f"q{seed}b{ci}", dict(plain_feat, depth=2))
@@ -1866,7 +1874,7 @@ def oracle(seed: int = 16, scale: float = 1.0) -> dict:
                                           {"n": "inner", "t": {"opt": {"dc": inner}}, "d": "none"}],
                                "load": None, "dump": None}])
         c.classes[name] = None
-        val = UUIDS[0] if leaf == "uuid" else TIMES[0]
+        val = rng.choice(UUIDS) if leaf == "uuid" else rng.choice(TIME_CANON)
         j = {"ident": val if shape != "list" else [val]}
         cases.append({"prop": "unsupported_leaf", "decls": c.decls, "ty": {"dc": name}, "json": j,
                       "leaf_class": f"leaf-{leaf}-unsupported"})
